@@ -669,6 +669,16 @@ where
     r.map(|(t, e)| (t, e, hit))
 }
 
+/// Recovering parse whose time budget is already used up when the first error is met: the search
+/// must give up at once (no repairs), and the parse must still return.
+pub fn parse_tree_no_budget(b: &Built<u32>, input: &[usize], layout: &Layout, costs: Option<&[u8]>) -> Result<(Option<ITree>, Vec<PErr>), String> {
+    lrpar::verif_hooks::set_budget_ms(Some(0));
+    lrpar::verif_hooks::set_expansion_cap(u64::MAX);
+    let r = parse_tree(b, input, layout, RecoveryKind::CPCTPlus, costs);
+    lrpar::verif_hooks::set_budget_ms(Some(86_400_000));
+    r
+}
+
 /// Index of the input lexeme an error points at (`n` = end of input), with the well-formedness
 /// of that lexeme checked against the layout.
 pub fn error_index<T: 'static + PrimInt + Unsigned + Hash + Debug>(
